@@ -190,6 +190,9 @@ def run_property(prop, cases, classify=None, technique="", functions=None, bound
         "second_solver_cvc5": {"enabled": tier == "thorough", "unsat_confirmed": sum(r.get("cvc5_unsat", 0) for r in results),
                                "unknown_or_timeout": sum(r.get("cvc5_unknown", 0) for r in results)},
         "queries_closed_by_rewriting_alone": sum(r.get("closed_by_rewriting", 0) for r in results),
+        "unnormalised_rechecks": {"note": "every 7th small case is re-decided by z3 with ALL rewriting rules switched off (terms.RAW); sat would mean an unsound rule and is fatal",
+                                  "unsat": sum(r.get("raw_unsat", 0) for r in results), "unknown": sum(r.get("raw_unknown", 0) for r in results),
+                                  "goal_trivial_even_without_rewriting": sum(r.get("raw_trivial", 0) for r in results)},
         "driver_build_s": round(build_s, 1),
         "functions_encoded": functions or [],
         "bounds": bounds or {},
